@@ -33,7 +33,7 @@ CHECKS = {
     note="Code generation runs through stand-ins for click/jinja2/toposort and without ruff (self-tested against the 28 committed fixture outputs, AST-equal). Global element refs, substitution groups, named groups and attribute groups are generated; a second family generates 3-5 schemas importing each other (type names recurring across namespaces); xs:include and mixed content are not generated (mixed: four recorded findings), wrapper_fields stays off and the regions of the recorded findings (known_findings.json, 19 entries) are excluded by construction. 'Circular Dependencies' / 'strongly connected types' CodegenErrors are accepted as the documented refusal for non-cluster structure styles."),
  "C19": dict(cat="exploration", ref="§C19",
     tech="schedule exploration with a harness-owned cooperative scheduler (yield points = traced lines touching shared state, installed with threading.settrace): exhaustive single-preemption enumeration for fixed program pairs + property-based (Hypothesis) generation of thread programs and multi-preemption schedules + a free-running stress run; oracle = differential against the sequential outcome on fresh instances",
-    text="Threads run generated programs over one shared XmlContext and shared parsers/serializers; the scheduler owns every interleaving decision at line granularity inside the anchored code. Every single preemption of 19 two-thread program pairs is explored, plus generated schedules with up to 4 preemptions for 2-4 threads; each operation's outcome must equal its sequential outcome. Exhaustive for single preemptions of the listed pairs at the chosen yield points, searched elsewhere.",
+    text="Threads run generated programs over one shared XmlContext and shared parsers/serializers; the scheduler owns every interleaving decision at line granularity inside the anchored code. Every single preemption of 21 two-thread program pairs is explored, plus generated schedules with up to 4 preemptions for 2-4 threads; each operation's outcome must equal its sequential outcome. Exhaustive for single preemptions of the listed pairs at the chosen yield points, searched elsewhere.",
     note="Interleavings are modelled at line granularity in context.py (shared-cache lines), models/elements.py, parsers/nodes/union.py and the parser entry points only; no source hooks are used. Recorded warnings are not compared (warnings.catch_warnings is process-global)."),
  "C14": dict(cat="exploration", ref="§C14",
     tech="bounded-exhaustive enumeration of operation histories + Hypothesis rule-based state machine (stateful testing); oracle = differential against freshly constructed context/parser/serializer instances after every step",
